@@ -501,7 +501,8 @@ class Check:
                 trusted_base=["Lean 4.33 kernel", "axioms ⊆ {propext, Classical.choice, Quot.sound}",
                               "Mathlib v4.33 modules imported by proof files",
                               "hand-written model tied to the code by the correspondence run reported here",
-                              "translator harness/translate.py for regenerated constants/kernels"],
+                              "translators harness/translate*.py (literals, kernels, accessor methods, assembly, tracking, selection, "
+                              "constructors, C-text digests) and the numpy/xarray reading written down in Model/*Rt.lean, NpArr.lean"],
                 theorems=a["theorems"],
             )
         elif a.get("obligations"):
